@@ -330,6 +330,54 @@ Proof.
   - apply (IH k tk g id ts H Hb).
 Qed.
 
+(* the ids of the closed (committed) trackers along the chain *)
+Fixpoint cchain_from (l : list tracker) (cur : option nat) : list N :=
+  match cur with
+  | None => []
+  | Some k =>
+      match l with
+      | [] => []
+      | tk :: rest =>
+          if Nat.eqb k (length rest)
+          then (if t_open tk then [] else t_ids tk) ++ cchain_from rest (t_gparent tk)
+          else cchain_from rest cur
+      end
+  end.
+
+Lemma cchain_cons_ne t0 l cur :
+  (forall p, cur = Some p -> p <> length l) -> cchain_from (t0 :: l) cur = cchain_from l cur.
+Proof.
+  destruct cur as [p|]; intro H; cbn; [|now destruct l].
+  destruct (Nat.eqb_spec p (length l)); [exfalso; now apply (H p)|reflexivity].
+Qed.
+
+Lemma cchain_none l : forall k, get l k = None -> cchain_from l (Some k) = [].
+Proof.
+  induction l as [|t0 rest IH]; cbn; intros k H; [reflexivity|].
+  destruct (Nat.eqb_spec k (length rest)); [discriminate|auto].
+Qed.
+
+Lemma cchain_unfold l : forall k tk,
+  get l k = Some tk -> (forall p, t_gparent tk = Some p -> (p < k)%nat) ->
+  cchain_from l (Some k) = (if t_open tk then [] else t_ids tk) ++ cchain_from l (t_gparent tk).
+Proof.
+  induction l as [|t0 rest IH]; intros k tk H Hb; [discriminate|].
+  cbn in H. cbn [cchain_from]. destruct (Nat.eqb_spec k (length rest)) as [->|Hne].
+  - assert (t0 = tk) by congruence. subst t0. f_equal. symmetry. apply cchain_cons_ne.
+    intros p Hp. apply Hb in Hp. lia.
+  - rewrite (IH k tk H Hb). f_equal. symmetry. apply cchain_cons_ne.
+    intros p Hp. apply Hb in Hp. apply get_lt in H. lia.
+Qed.
+
+Lemma cchain_sub l : forall cur X, In X (cchain_from l cur) -> In X (chain_from l cur).
+Proof.
+  induction l as [|t0 rest IH]; intros [k|] X H; cbn in *; try contradiction.
+  destruct (Nat.eqb k (length rest)); [|auto].
+  apply in_app_iff in H. apply in_app_iff. destruct H as [H|H]; [left|right; auto].
+  destruct (t_open t0); [destruct H|assumption].
+Qed.
+
+
 (* no tracker was created from t *)
 Definition leaf (l : list tracker) (t : nat) : Prop :=
   forall tk, In tk l -> t_gparent tk <> Some t.
@@ -504,11 +552,15 @@ Variable tsof : N -> Z.
 Variable gof : N -> bool.
 Variable v : variant.
 Hypothesis Hv : sound_variant v.
+(* full = true: the recorded timestamps also pass the guard of tracker.Has, and
+   the invariant carries the absence of duplicates; full = false: only what is
+   needed to find committed ids *)
+Variable full : bool.
 
 (* what validation guarantees about a recorded id, as far as the lookup needs it *)
 Definition tx_ok (tk : tracker) (X : N) : Prop :=
   tsof X <= t_ts tk + t_th tk /\
-  skip_own v (tsof X) (t_ts tk + t_th tk) = false /\
+  (full = true -> skip_own v (tsof X) (t_ts tk + t_th tk) = false) /\
   gof X = t_grp tk /\ t_ts tk <> 0.
 
 Record ginv (l : list tracker) (m : manager) : Prop := {
@@ -522,7 +574,7 @@ Record ginv (l : list tracker) (m : manager) : Prop := {
              get l p = Some tp -> t_grp tp = t_grp tk;
   gi_minv : forall k tk X, get l k = Some tk -> t_open tk = false -> In X (t_ids tk) ->
              minv tsof gof m X;
-  gi_nodup : forall k, NoDup (chain_from l (Some k));
+  gi_nodup : full = true -> forall k, NoDup (chain_from l (Some k));
   gi_cinv : cinv tsof gof m }.
 
 Definition closed_at (l : list tracker) (gp : option nat) : Prop :=
@@ -552,12 +604,12 @@ Proof.
 Qed.
 
 (* the lookup never answers "absent" for an id recorded on the chain *)
-Lemma has_sound l m : ginv l m -> forall n r gp g X,
+Lemma has_sound l m : full = true -> ginv l m -> forall n r gp g X,
   (forall p, gp = Some p -> (p < n)%nat) ->
   (r = gp \/ (r = None /\ closed_at l gp)) -> grp_at l gp g ->
   In X (chain_from l gp) -> has_from v m l r g X (tsof X) <> Some false.
 Proof.
-  intros GI. induction n as [|n IH]; intros r gp g X Hb Hl Hg HX.
+  intros Hfull GI. induction n as [|n IH]; intros r gp g X Hb Hl Hg HX.
   - destruct gp as [p|]; [specialize (Hb p eq_refl); lia|destruct l; destruct HX].
   - destruct Hl as [->|[-> Hc]].
     2:{ destruct (closed_chain l m GI (S n) gp g X Hb Hc Hg HX) as [Hm Hgo].
@@ -583,7 +635,7 @@ Proof.
     rewrite (sound_early v Hv).
     apply in_app_iff in HX. destruct HX as [HX|HX].
     + destruct (gi_ok _ _ GI k tk X Ek HX) as (_ & Hsk & Hgo & _).
-      rewrite Hsk. destruct (t_open tk) eqn:Eo.
+      rewrite (Hsk Hfull). destruct (t_open tk) eqn:Eo.
       * assert (Em : mem X (t_ids tk) = true) by now apply mem_In.
         rewrite Em. cbn. discriminate.
       * cbn [andb]. rewrite (gi_closed _ _ GI k tk Ek Eo).
@@ -591,6 +643,50 @@ Proof.
                     = Some (manager_has_v v m (t_grp tk) X (tsof X))) by (destruct l; reflexivity).
         rewrite E, (manager_has_true tsof gof v Hv m (t_grp tk) X
                       (gi_minv _ _ GI k tk X Ek Eo HX) Hgo). discriminate.
+    + destruct (skip_own v (tsof X) (t_ts tk + t_th tk)); [now apply Hup|].
+      destruct (t_open tk && mem X (t_ids tk)); [discriminate|now apply Hup].
+Qed.
+
+(* ... and never for an id recorded in a committed tracker of the chain, whatever
+   its timestamp is within the window (no use of the guard) *)
+Lemma has_sound_closed l m : ginv l m -> forall n r gp g X,
+  (forall p, gp = Some p -> (p < n)%nat) ->
+  (r = gp \/ (r = None /\ closed_at l gp)) -> grp_at l gp g ->
+  In X (cchain_from l gp) -> has_from v m l r g X (tsof X) <> Some false.
+Proof.
+  intros GI. induction n as [|n IH]; intros r gp g X Hb Hl Hg HX.
+  - destruct gp as [p|]; [specialize (Hb p eq_refl); lia|destruct l; destruct HX].
+  - destruct Hl as [->|[-> Hc]].
+    2:{ destruct (closed_chain l m GI (S n) gp g X Hb Hc Hg (cchain_sub _ _ _ HX)) as [Hm Hgo].
+        assert (E : has_from v m l None g X (tsof X) = Some (manager_has_v v m g X (tsof X)))
+          by (destruct l; reflexivity).
+        rewrite E, (manager_has_true tsof gof v Hv m g X Hm Hgo). discriminate. }
+    destruct gp as [k|]; [|destruct l; destruct HX].
+    destruct (get l k) as [tk|] eqn:Ek; [|rewrite (cchain_none l k Ek) in HX; destruct HX].
+    assert (Hbk : forall p, t_gparent tk = Some p -> (p < k)%nat)
+      by (intros p Hp; exact (gi_bound _ _ GI k tk p Ek Hp)).
+    rewrite (has_unfold v m l k tk g X (tsof X) Ek)
+      by (intros p Hp; apply Hbk; exact (gi_par _ _ GI k tk p Ek Hp)).
+    rewrite (cchain_unfold l k tk Ek Hbk) in HX.
+    assert (Hup : In X (cchain_from l (t_gparent tk)) ->
+                  has_from v m l (t_parent tk) (t_grp tk) X (tsof X) <> Some false).
+    { intro HX'. apply (IH (t_parent tk) (t_gparent tk) (t_grp tk) X); [| | |exact HX'].
+      - intros p Hp. pose proof (Hbk p Hp). specialize (Hb k eq_refl). lia.
+      - destruct (t_parent tk) as [q|] eqn:Eq.
+        + left. symmetry. exact (gi_par _ _ GI k tk q Ek Eq).
+        + right. split; [reflexivity|]. intros p tp Hp Htp.
+          exact (gi_anc _ _ GI k tk p tp Ek Eq Hp Htp).
+      - intros p tp Hp Htp. exact (gi_grp _ _ GI k tk p tp Ek Hp Htp). }
+    rewrite (sound_early v Hv).
+    apply in_app_iff in HX. destruct HX as [HX|HX].
+    + destruct (t_open tk) eqn:Eo; [destruct HX|].
+      destruct (gi_ok _ _ GI k tk X Ek HX) as (_ & _ & Hgo & _).
+      cbn [andb]. rewrite (gi_closed _ _ GI k tk Ek Eo).
+      assert (E : has_from v m l None (t_grp tk) X (tsof X)
+                  = Some (manager_has_v v m (t_grp tk) X (tsof X))) by (destruct l; reflexivity).
+      rewrite E, (manager_has_true tsof gof v Hv m (t_grp tk) X
+                    (gi_minv _ _ GI k tk X Ek Eo HX) Hgo).
+      destruct (skip_own v (tsof X) (t_ts tk + t_th tk)); discriminate.
     + destruct (skip_own v (tsof X) (t_ts tk + t_th tk)); [now apply Hup|].
       destruct (t_open tk && mem X (t_ids tk)); [discriminate|now apply Hup].
 Qed.
@@ -614,7 +710,8 @@ Fixpoint hist_ok (win : Z -> Z -> Z -> Prop) (st : state) (h : list op) : Prop :
   end.
 
 Definition win_ok (win : Z -> Z -> Z -> Prop) : Prop :=
-  forall bts th ts, win bts th ts -> ts <= bts + th /\ skip_own v ts (bts + th) = false.
+  forall bts th ts, win bts th ts ->
+    ts <= bts + th /\ (full = true -> skip_own v ts (bts + th) = false).
 
 (* ---- Add ---- *)
 
@@ -637,7 +734,7 @@ Proof.
       try (inversion E; subst; add_nil).
     destruct (IH _ _ _ _ _ Hts' E) as (added & -> & Hnd & Hadd).
     exists (id :: added). rewrite <- app_assoc. split; [reflexivity|]. split.
-    + intro Ha. apply Hnd. apply NoDup_snoc; [assumption|now apply mem_false].
+    + intro Ha. rewrite app_assoc. apply Hnd. apply NoDup_snoc; [assumption|now apply mem_false].
     + intros X [<-|HX].
       * split; [left; now rewrite Hid|now rewrite <- Hid].
       * destruct (Hadd X HX). split; [now right|assumption].
@@ -656,7 +753,7 @@ Qed.
 Lemma ginv_add l m t tk ids :
   ginv l m -> get l t = Some tk -> t_open tk = true -> leaf l t ->
   (forall X, In X ids -> tx_ok tk X) ->
-  NoDup (ids ++ chain_from l (t_gparent tk)) ->
+  (full = true -> NoDup (ids ++ chain_from l (t_gparent tk))) ->
   ginv (upd l t (set_ids ids)) m.
 Proof.
   intros GI Ht Ho Hleaf Hok Hnd.
@@ -695,14 +792,14 @@ Proof.
     destruct (Nat.eq_dec k t) as [->|Hkt].
     + destruct (Heq eq_refl) as [_ ->]. congruence.
     + rewrite (Hne Hkt) in *. exact (gi_minv _ _ GI k tk0 X H0 Hc HX).
-  - intros k. destruct (Nat.eq_dec k t) as [->|Hkt].
+  - intros Hf k. destruct (Nat.eq_dec k t) as [->|Hkt].
     + assert (Hg' : get (upd l t (set_ids ids)) t = Some (set_ids ids tk))
         by (rewrite get_upd, Nat.eqb_refl, Ht; reflexivity).
       rewrite (chain_unfold _ t _ Hg') by (cbn; intros p Hp; exact (gi_bound _ _ GI t tk p Ht Hp)).
       cbn [t_ids t_gparent set_ids].
-      rewrite chain_upd_leaf; [exact Hnd|exact Hleaf|].
+      rewrite chain_upd_leaf; [exact (Hnd Hf)|exact Hleaf|].
       intro E. pose proof (gi_bound _ _ GI t tk t Ht E). lia.
-    + rewrite chain_upd_leaf; [exact (gi_nodup _ _ GI k)|exact Hleaf|congruence].
+    + rewrite chain_upd_leaf; [exact (gi_nodup _ _ GI Hf k)|exact Hleaf|congruence].
   - exact (gi_cinv _ _ GI).
 Qed.
 
@@ -755,10 +852,10 @@ Proof.
   - intros k tk X H Hc HX. destruct (get_push _ _ _ _ H) as [[-> ->]|[Hk H0]].
     + congruence.
     + exact (gi_minv _ _ GI k tk X H0 Hc HX).
-  - intros k. cbn [chain_from]. destruct (Nat.eqb_spec k (length l)).
-    + rewrite Hids. cbn. destruct (t_gparent tn) as [p|]; [exact (gi_nodup _ _ GI p)|].
+  - intros Hf k. cbn [chain_from]. destruct (Nat.eqb_spec k (length l)).
+    + rewrite Hids. cbn. destruct (t_gparent tn) as [p|]; [exact (gi_nodup _ _ GI Hf p)|].
       destruct l; constructor.
-    + exact (gi_nodup _ _ GI k).
+    + exact (gi_nodup _ _ GI Hf k).
   - exact (gi_cinv _ _ GI).
 Qed.
 
@@ -826,14 +923,14 @@ Proof.
       apply (Hnew (list_of tk0) X); [|exact HX].
       apply -> in_rev. exact (cw_jobs_in l (Some t) k tk0 Eon H0 Eo).
     + apply Hmono. exact (gi_minv _ _ GI k tk0 X H0 Eo HX).
-  - intros k. unfold l'. rewrite cw_chain. exact (gi_nodup _ _ GI k).
+  - intros Hf k. unfold l'. rewrite cw_chain. exact (gi_nodup _ _ GI Hf k).
   - exact Hc'.
 Qed.
 
 Lemma ginv_init : ginv [] new_manager.
 Proof.
   constructor; try (intros; discriminate).
-  - intros k. constructor.
+  - intros _ k. constructor.
   - intros g P H. destruct g; destruct H.
 Qed.
 
@@ -860,7 +957,7 @@ Proof.
     unfold tracker_add_v. destruct (get (s_trk st) t) as [tk|] eqn:Et; [|exact GI].
     destruct (t_open tk) eqn:Eo; [|exact GI]. cbn [negb].
     destruct (t_ids tk) as [|x xs] eqn:Ei; [|exact GI].
-    destruct Hval as (-> & Hleaf & Htx). specialize (Htx tk eq_refl).
+    destruct Hval as (-> & Hleaf & Htx). specialize (Htx tk Et).
     destruct (add_loop v st tk false txs [] O) as [[ids cnt] cls] eqn:Ea.
     cbn [fst s_trk s_mgr].
     destruct (add_loop_spec st tk txs [] O ids cnt cls (fun p Hp => proj1 (Htx p Hp)) Ea)
@@ -870,12 +967,12 @@ Proof.
     + intros X HX. destruct (Hadd X HX) as [Hin _].
       destruct (Htx _ Hin) as (_ & Hg & Hz & Hwin). cbn [fst snd] in *.
       destruct (Hw _ _ _ Hwin) as [H1 H2]. unfold tx_ok. auto.
-    + apply NoDup_app_intro.
+    + intro Hf. apply NoDup_app_intro.
       * apply Hnd. constructor.
-      * destruct (t_gparent tk) as [p|]; [exact (gi_nodup _ _ GI p)|].
+      * destruct (t_gparent tk) as [p|]; [exact (gi_nodup _ _ GI Hf p)|].
         destruct (s_trk st); constructor.
       * intros X HX Hch. destruct (Hadd X HX) as [_ Hhas]. unfold parent_has_v in Hhas.
-        revert Hhas. apply (has_sound _ _ GI t (t_parent tk) (t_gparent tk) (t_grp tk) X).
+        revert Hhas. apply (has_sound _ _ Hf GI t (t_parent tk) (t_gparent tk) (t_grp tk) X).
         -- intros p Hp. exact (gi_bound _ _ GI t tk p Et Hp).
         -- destruct (t_parent tk) as [q|] eqn:Eq.
            ++ left. symmetry. exact (gi_par _ _ GI t tk q Et Eq).
@@ -898,9 +995,253 @@ Proof.
 Qed.
 
 Lemma no_replay_gen win h :
+  full = true ->
   win_ok win -> hist_ok win init h -> forall t, NoDup (chain_ids (run_v v init h) t).
 Proof.
-  intros Hw Hh t. apply (gi_nodup _ _ (run_inv win h Hw init ginv_init Hh)).
+  intros Hf Hw Hh t. apply (gi_nodup _ _ (run_inv win h Hw init ginv_init Hh) Hf).
+Qed.
+
+Lemma hist_ok_app win h : forall st o,
+  hist_ok win st (h ++ [o]) -> hist_ok win st h /\ valid_op win (run_v v st h) o.
+Proof.
+  induction h as [|a r IH]; intros st o H; cbn in *.
+  - tauto.
+  - destruct H as [Ha Hr]. destruct (IH _ _ Hr). tauto.
+Qed.
+
+(* an id recorded in a committed tracker of the chain is never accepted again *)
+Lemma committed_not_replayed_gen win h t txs :
+  win_ok win -> hist_ok win init (h ++ [OAdd t txs false]) ->
+  let st := run_v v init h in
+  forall st' cnt cls tk tk',
+    tracker_add_v v st t txs false = Some (st', cnt, cls) ->
+    get (s_trk st) t = Some tk -> t_ids tk = [] -> get (s_trk st') t = Some tk' ->
+    forall X, In X (t_ids tk') -> ~ In X (cchain_from (s_trk st) (t_gparent tk)).
+Proof.
+  intros Hw Hh st st' cnt cls tk tk' Ea Et Ei Et' X HX Hch.
+  destruct (hist_ok_app win h init _ Hh) as [Hh0 Hval]. fold st in Hval.
+  pose proof (run_inv win h Hw init ginv_init Hh0) as GI. fold st in GI. unfold sinv in GI.
+  unfold tracker_add_v in Ea. rewrite Et, Ei in Ea.
+  destruct (t_open tk) eqn:Eo; cbn [negb] in Ea.
+  2:{ inversion Ea; subst st'. assert (tk' = tk) by congruence. subst. rewrite Ei in HX. destruct HX. }
+  destruct (add_loop v st tk false txs [] O) as [[ids c] cl] eqn:El.
+  inversion Ea; subst st' cnt cls. cbn [s_trk] in Et'.
+  rewrite get_upd, Nat.eqb_refl, Et in Et'. cbn in Et'.
+  assert (tk' = set_ids ids tk) by congruence. subst tk'. cbn [t_ids set_ids] in HX.
+  destruct Hval as (_ & _ & Htx). specialize (Htx tk Et).
+  destruct (add_loop_spec st tk txs [] O ids c cl (fun p Hp => proj1 (Htx p Hp)) El)
+    as (added & -> & _ & Hadd).
+  cbn [app] in HX. destruct (Hadd X HX) as [_ Hhas]. unfold parent_has_v in Hhas.
+  revert Hhas. apply (has_sound_closed _ _ GI t (t_parent tk) (t_gparent tk) (t_grp tk) X).
+  - intros p Hp. exact (gi_bound _ _ GI t tk p Et Hp).
+  - destruct (t_parent tk) as [q|] eqn:Eq.
+    + left. symmetry. exact (gi_par _ _ GI t tk q Et Eq).
+    + right. split; [reflexivity|]. intros p tp Hp Htp.
+      exact (gi_anc _ _ GI t tk p tp Et Eq Hp Htp).
+  - intros p tp Hp Htp. exact (gi_grp _ _ GI t tk p tp Et Hp Htp).
+  - exact Hch.
 Qed.
 
 End Hist.
+
+(* ------------------------------------------------------------------ *)
+(* E. the theorems of C11                                              *)
+(* ------------------------------------------------------------------ *)
+
+(* the accepted window without its top point *)
+Definition in_window_open (bts th ts : Z) : Prop := bts - th < ts < bts + th.
+
+Lemma open_iff bts th ts : in_window_open bts th ts <-> in_window bts th ts /\ ts <> bts + th.
+Proof. unfold in_window_open, in_window. lia. Qed.
+
+Lemma win_ok_strict : win_ok VStrict true in_window.
+Proof. intros bts th ts H. unfold in_window in H. cbn. split; [|intros _]; lia. Qed.
+
+Lemma win_ok_code_open : win_ok VCode true in_window_open.
+Proof. intros bts th ts H. unfold in_window_open in H. cbn. split; [|intros _]; lia. Qed.
+
+Lemma win_ok_any v : win_ok v false in_window.
+Proof. intros bts th ts H. unfold in_window in H. split; [lia|discriminate]. Qed.
+
+(* with `>` in the guard of tracker.Has the property holds as stated *)
+Lemma no_replay_strict tsof gof h :
+  hist_ok tsof gof VStrict in_window init h ->
+  forall t, NoDup (chain_ids (run_v VStrict init h) t).
+Proof. apply (no_replay_gen tsof gof VStrict (or_intror eq_refl) true in_window h eq_refl win_ok_strict). Qed.
+
+(* the code as it is: the property holds except for timestamps exactly at bts+th *)
+Lemma no_replay_except_bound tsof gof h :
+  hist_ok tsof gof VCode in_window_open init h ->
+  forall t, NoDup (chain_ids (run init h) t).
+Proof. apply (no_replay_gen tsof gof VCode (or_introl eq_refl) true in_window_open h eq_refl win_ok_code_open). Qed.
+
+(* the code as it is, full window: what is committed is never accepted again;
+   the open bound concerns uncommitted ancestors only *)
+Lemma committed_not_replayed tsof gof h t txs :
+  hist_ok tsof gof VCode in_window init (h ++ [OAdd t txs false]) ->
+  let st := run init h in
+  forall st' cnt cls tk tk',
+    tracker_add st t txs false = Some (st', cnt, cls) ->
+    get (s_trk st) t = Some tk -> t_ids tk = [] -> get (s_trk st') t = Some tk' ->
+    forall X, In X (t_ids tk') -> ~ In X (cchain_from (s_trk st) (t_gparent tk)).
+Proof.
+  apply (committed_not_replayed_gen tsof gof VCode (or_introl eq_refl) false in_window h t txs
+           (win_ok_any VCode)).
+Qed.
+
+(* ---- concrete histories ---- *)
+
+Fixpoint nodupb (l : list N) : bool :=
+  match l with [] => true | x :: r => negb (mem x r) && nodupb r end.
+
+Lemma nodupb_spec l : nodupb l = true <-> NoDup l.
+Proof.
+  induction l as [|x r IH]; cbn.
+  - split; [constructor|reflexivity].
+  - rewrite andb_true_iff, negb_true_iff, mem_false, IH. split.
+    + intros [H1 H2]. now constructor.
+    + intro H. inversion H; now subst.
+Qed.
+
+Ltac solve_valid :=
+  cbn;
+  repeat match goal with
+         | |- _ /\ _ => split
+         | |- True => exact I
+         | |- leaf _ _ => let tk := fresh in let H := fresh in
+                          intros tk H; cbn in H;
+                          repeat (destruct H as [H|H]; [subst tk; cbn; congruence|]); destruct H
+         | |- forall tk, Some _ = Some tk -> _ =>
+             let tk := fresh in let E := fresh in let p := fresh in let H := fresh in
+             intros tk E p H; inversion E; subst tk; clear E; cbn in H;
+             repeat (destruct H as [H|H]; [subst p; cbn; unfold in_window, in_window_open;
+                                           repeat split; try reflexivity; try lia; try congruence|]);
+             destruct H
+         | |- false = false => reflexivity
+         end.
+
+(* (1) the open bound: block B (ts 100, th 10) holds tx 7 with timestamp 110 =
+   100+10, inside B's window (90,110]; its child C (ts 101, th 10, window
+   (91,111]) accepts tx 7 again. *)
+Definition h_bound : list op :=
+  [ ONewRoot true 50 10;
+    ONew 0 100 10; OAdd 1 [(7%N, 110)] false;
+    ONew 1 101 10; OAdd 2 [(7%N, 110)] false ].
+
+Lemma h_bound_valid : hist_ok (fun _ => 110) (fun _ => true) VCode in_window init h_bound.
+Proof. unfold h_bound. solve_valid. Qed.
+
+Lemma h_bound_dup : chain_ids (run init h_bound) 2 = [7%N; 7%N].
+Proof. vm_compute. reflexivity. Qed.
+
+Lemma no_replay_refuted :
+  exists tsof gof h t, hist_ok tsof gof VCode in_window init h /\
+                       ~ NoDup (chain_ids (run init h) t).
+Proof.
+  exists (fun _ => 110), (fun _ => true), h_bound, 2%nat. split; [exact h_bound_valid|].
+  rewrite h_bound_dup. intro H. apply nodupb_spec in H. discriminate.
+Qed.
+
+(* the same history is rejected with the strict guard: Add answers DuplicateTx *)
+Example h_bound_strict :
+  snd (step_v VStrict (run_v VStrict init (firstn 4 h_bound)) (OAdd 2 [(7%N, 110)] false))
+  = RAdd 0 1%N.
+Proof. vm_compute. reflexivity. Qed.
+
+(* (2) before ba5b843, first half: tracker.Has answered false at the guard.
+   A (ts 100, th 50) holds tx 7 with timestamp 149; T (ts 101, th 10);
+   C (ts 145, th 10, window (135,155]) re-includes tx 7: T's guard 149 >= 111
+   ended the walk before A was asked. *)
+Definition h_early : list op :=
+  [ ONewRoot true 50 10;
+    ONew 0 100 50; OAdd 1 [(7%N, 149)] false;
+    ONew 1 101 10; OAdd 2 [] false;
+    ONew 2 145 10; OAdd 3 [(7%N, 149)] false ].
+
+Lemma h_early_valid v : hist_ok (fun _ => 149) (fun _ => true) v in_window_open init h_early.
+Proof. unfold h_early. destruct v; solve_valid. Qed.
+
+Lemma pre_early_refuted :
+  exists tsof gof h t, hist_ok tsof gof VPreEarly in_window_open init h /\
+                       ~ NoDup (chain_ids (run_v VPreEarly init h) t).
+Proof.
+  exists (fun _ => 149), (fun _ => true), h_early, 3%nat. split; [apply h_early_valid|].
+  intro H. apply nodupb_spec in H. vm_compute in H. discriminate.
+Qed.
+
+Example h_early_now :
+  snd (step (run init (firstn 6 h_early)) (OAdd 3 [(7%N, 149)] false)) = RAdd 0 1%N.
+Proof. vm_compute. reflexivity. Qed.
+
+(* (3) before ba5b843, second half: `l <= ts` at maxTSInDB.  A (ts 100, th 10)
+   holds tx 7 with timestamp 110 and is committed; committing B (ts 130, th 10)
+   evicts A: maxTSInDB = 110.  C (ts 131, th 25, window (106,156]) re-includes
+   tx 7: the cache shortcut skipped the database at ts = maxTSInDB.  The first
+   occurrence is committed, so the guard of tracker.Has plays no part. *)
+Definition h_maxle : list op :=
+  [ ONewRoot true 50 10;
+    ONew 0 100 10; OAdd 1 [(7%N, 110)] false; OCommit 1;
+    ONew 1 130 10; OAdd 2 [] false; OCommit 2;
+    ONew 2 131 25; OAdd 3 [(7%N, 110)] false ].
+
+Lemma h_maxle_valid v : hist_ok (fun _ => 110) (fun _ => true) v in_window init h_maxle.
+Proof. unfold h_maxle. destruct v; solve_valid. Qed.
+
+Lemma pre_maxle_refuted :
+  exists tsof gof h t, hist_ok tsof gof VPreMaxLe in_window init h /\
+                       ~ NoDup (chain_ids (run_v VPreMaxLe init h) t).
+Proof.
+  exists (fun _ => 110), (fun _ => true), h_maxle, 3%nat. split; [apply h_maxle_valid|].
+  intro H. apply nodupb_spec in H. vm_compute in H. discriminate.
+Qed.
+
+Example h_maxle_now :
+  snd (step (run init (firstn 8 h_maxle)) (OAdd 3 [(7%N, 110)] false)) = RAdd 0 1%N
+  /\ c_max (m_cn (s_mgr (run init (firstn 8 h_maxle)))) = 110.
+Proof. vm_compute. split; reflexivity. Qed.
+
+(* (4) hypotheses are met by non-trivial histories: three blocks with growing
+   and shrinking thresholds, a commit in the middle, five transactions *)
+Definition h_good : list op :=
+  [ ONewRoot true 50 10;
+    ONew 0 100 30; OAdd 1 [(1%N, 71); (2%N, 129)] false;
+    ONew 1 110 5;  OAdd 2 [(3%N, 106); (4%N, 114)] false; OCommit 1;
+    ONew 2 140 40; OAdd 3 [(5%N, 101)] false; OCommit 3 ].
+
+Definition ts_good (i : N) : Z :=
+  match i with 1%N => 71 | 2%N => 129 | 3%N => 106 | 4%N => 114 | _ => 101 end.
+
+Example h_good_valid_code : hist_ok ts_good (fun _ => true) VCode in_window_open init h_good.
+Proof. unfold h_good. solve_valid. Qed.
+Example h_good_valid_strict : hist_ok ts_good (fun _ => true) VStrict in_window init h_good.
+Proof. unfold h_good. solve_valid. Qed.
+Example h_good_ids : chain_ids (run init h_good) 3 = [5%N; 3%N; 4%N; 1%N; 2%N].
+Proof. vm_compute. reflexivity. Qed.
+
+(* (5) why the block timestamp of a block that carries transactions must not
+   be 0 (`ptr.ts != 0` in addListAndClearOldInLock leaves maxTSInDB alone): a
+   list with ts 0 evicted after a list with a small bound *)
+Definition h_zero : list op :=
+  [ ONewRoot true 1 1; OCommit 0;
+    ONew 0 0 10; OAdd 1 [(7%N, 5)] false; OCommit 1;
+    ONew 1 20 10; OAdd 2 [] false; OCommit 2;
+    ONew 2 21 17; OAdd 3 [(7%N, 5)] false ].
+Example h_zero_dup : chain_ids (run_v VStrict init h_zero) 3 = [7%N; 7%N].
+Proof. vm_compute. reflexivity. Qed.
+
+(* (6) the hypotheses of committed_not_replayed are met by h_maxle (as prefix ++ [Add]),
+   and the variant with `l <= ts` violates its conclusion on it *)
+Example committed_hyp_met :
+  hist_ok (fun _ => 110) (fun _ => true) VCode in_window init
+          (firstn 8 h_maxle ++ [OAdd 3 [(7%N, 110)] false]).
+Proof. exact (h_maxle_valid VCode). Qed.
+
+Lemma pre_maxle_replays_committed :
+  let st := run_v VPreMaxLe init (firstn 8 h_maxle) in
+  In 7%N (cchain_from (s_trk st) (Some 2%nat)) /\
+  exists st', tracker_add_v VPreMaxLe st 3 [(7%N, 110)] false = Some (st', 1%nat, 0%N).
+Proof.
+  split.
+  - vm_compute. now left.
+  - eexists. vm_compute. reflexivity.
+Qed.
